@@ -982,7 +982,10 @@ def _block_sized(key):
             n3 = (total - 1) // 3 if total % 3 != 0 else total // 3
             data = bytes([0x90, 1, 2]) * n3 + bytes([0xf8]) * (total - 3 * n3)
             assert len(data) == total
-            peer.sendall(data)
+            try:
+                peer.sendall(data)
+            except OSError:
+                continue                # the socket buffers of this machine do not hold the burst: nothing to say
             deadline = time.time() + 5
             while time.time() < deadline:           # wait until the whole backlog is in the kernel buffer
                 try:
